@@ -24,6 +24,7 @@ FIXES = [
     ("fixed-C11-interface-field-covariance", "C11", "cook_failed", "valid implementation field type"),
     ("fixed-C07-enum-string-literal", "C07", "string-spelling-a-value", "literal spelling an enum value"),
     ("fixed-C07-reserved-name-field", "C07", "reserved-name", "starts with two underscores"),
+    ("fixed-C14-subscribe-raises-on-argument-failure", "C14", "subscribe_raised", "failing argument coercion of the root field"),
     ("fixed-C06-subscription-root-repeated", "C06", "valid_request_refused", "single root field several times"),
 ]
 
